@@ -7,6 +7,10 @@ CONSTANTS
   MaxLen = 2
   MaxNest = 24
   Repl <- ReplT
+  HistValues <- HistT
+  ParValues <- HistT
+  MaxKept = 3
+  SinkReuse = FALSE
 VIEW view
 PROPERTIES RoundTrip Canonical PrefixFree WrapperOK CountOK
 CONSTRAINT InitOut
